@@ -6,6 +6,7 @@ pub mod c01;
 pub mod c02;
 pub mod c03;
 pub mod c14;
+pub mod c17;
 
 pub struct PropMeta {
     pub level: &'static str,
@@ -19,12 +20,13 @@ pub fn meta(prop: &str) -> PropMeta {
         "C02" => c02::META,
         "C03" => c03::META,
         "C14" => c14::META,
+        "C17" => c17::META,
         _ => PropMeta { level: "exploration", rule: "", assumptions: &[] },
     }
 }
 
 pub fn known(prop: &str) -> bool {
-    matches!(prop, "C01" | "C02" | "C03" | "C14")
+    matches!(prop, "C01" | "C02" | "C03" | "C14" | "C17")
 }
 
 pub fn run(ctx: &mut Ctx) {
@@ -33,6 +35,7 @@ pub fn run(ctx: &mut Ctx) {
         "C02" => c02::run(ctx),
         "C03" => c03::run(ctx),
         "C14" => c14::run(ctx),
+        "C17" => c17::run(ctx),
         p => panic!("unknown property {}", p),
     }
 }
@@ -44,6 +47,7 @@ pub fn replay(ctx: &mut Ctx, stage: &str, case: &Value) -> Check {
         "C02" => c02::replay(ctx, stage, case),
         "C03" => c03::replay(ctx, stage, case),
         "C14" => c14::replay(ctx, stage, case),
+        "C17" => c17::replay(ctx, stage, case),
         p => panic!("unknown property {}", p),
     }
 }
